@@ -192,7 +192,9 @@ def main(table_path, out_path):
                             f"seeds(level2)={[(s['par'], s['pos']) for s in c['seeds']]}")
                     clause = "C10_SkipSameSprout"
                 elif fam == "far":
-                    ordv = {1: 1, 2: 2, 3: np.inf}[c["ord"]]
+                    ordv = {1: 1, 2: 2, 3: np.inf, 4: 3, 5: 4}[c["ord"]]
+                    if c.get("onthr"):
+                        continue            # (p-th roots are inexact: a distance exactly on the threshold is not decided)
                     flt = FarEnough(c["thr"] * scale, ordv)
                     lvl2 = [FakeDeme(f"s{i}", 2, s["active"], centroid=np.array([s["pos"][0] * scale, s["pos"][1] * scale]))
                             for i, s in enumerate(c["sibs"])]
